@@ -272,6 +272,10 @@ pub fn ls(cache: &Path) -> impl Iterator<Item = Result<Metadata>> {
                     format!("Error getting bucket entries from {}", owned_path.display())
                 })?
                 .into_iter()
+                .filter(|se| match &se.integrity {
+                    Some(i) => i.parse::<Integrity>().is_ok(),
+                    None => true,
+                })
                 .rev()
                 .collect::<HashSet<SerializableMetadata>>()
                 .into_iter()
